@@ -21,6 +21,9 @@ RULE = ("scripts against the real sche.MultiSelector/Sche driven step by step: 1
         "also while the service is held busy - and work produced from INSIDE a posted closure, a timer callback, an event listener and a request handler of the service itself (timers already due, Post to its own scheduler, "
         "Publish on its own event centre): every such piece must run on the loop goroutine and must not start before the piece that produced it has ended (nesting shows as two pieces in flight); "
         "3 of 8 cases spawn 2, 9, 10, 11, 12 or 30 actors from ONE props (one dispatcher queue of 9 mailbox batches, one run service): while the loop is held every actor gets a request, so from 11 actors on the posters must block in scheDisp.Schedule; "
+        "every third case has the service's event centre in DIRECT mode (no local events are produced then; global events, published by foreign goroutines and by other services on their goroutines in every case, must still arrive through the channel); "
+        "every fourth case ends with a TEARDOWN phase: while connections send, close and open on their network goroutines, timers are armed and expire, closures are posted, events are published and requests arrive, "
+        "the run service is stopped (by the service itself from inside a handler that keeps working, or by a foreign goroutine); afterwards work may be dropped but whatever still runs must be on the loop goroutine, one piece at a time (teardown work is checked, not counted); "
         "every fifth case a lopsided single-kind mix). Non-trivial = a user handler ran at least once (scripts) / any stress case; distinct = distinct annotated op lists.")
 TRUSTED_BASE = [
     "Coq 8.16.1 kernel + vm_compute (case evaluation, Examples); no native_compute",
@@ -35,6 +38,8 @@ TRUSTED_BASE = [
     "protoactor (mailbox -> Dispatcher.Schedule), time.AfterFunc, the Go scheduler; fairness of reflect.Select is NOT assumed by any theorem",
 ]
 ASSUMPTIONS = [
+    "the property text fixes WHERE a piece of a service's work runs, not THAT it runs: work produced after the run service was stopped may be dropped (Post after Stop, expiring timers, unsubscribed global events, queued events and mailbox batches never taken); it may not run anywhere but on the loop goroutine",
+    "direct mode (SetLocalUseChan(false)) of the local event centre: a local Publish is a synchronous call inside the publishing piece and only the service itself may publish locally; the measurement produces no local events in that mode",
     "liveness is NOT claimed: on unchanged code an actor that sends, inside one handler, to >= 10 idle sibling actors of its own props blocks the service goroutine for good in scheDisp.Schedule "
     "(hooks/C04-repro-sibling-fanout-deadlock.patch), and a mailbox that re-schedules itself from the loop while the dispatcher queue is full would do the same; the many-actor stress cases are arranged so that neither happens "
     "(traffic that may arrive at any time goes to at most 9 mailboxes)",
@@ -48,7 +53,7 @@ TECHNIQUE = ("Coq proof (inductive invariant of the MultiSelector machine over a
 LEVEL_TEXT = ("PARTIAL. Proved in Coq, for all histories / all schedules, about the MODEL of sche.MultiSelector and of the single consumer loop: runnings[i] always owns cases[i] and every handler invocation "
               "is for a value from its own channel (C04_selector_index, C04_handler_owns_channel); per channel, what was enqueued = what was handed to handlers, in order, exactly once, + what is still queued "
               "(C04_task_accounting); a queued task on a registered live channel is always selectable and a draining consumer hands over everything (C04_task_enabled, C04_no_task_lost); with ONE consumer process "
-              "and arbitrary concurrent producers at most one task is running, run by the consumer, never an index panic, never parked on stale cases while work is pending (C04_one_at_a_time, C04_no_missed_wakeup, C04_handler_runs_to_completion, C04_producers_never_run_handlers); the same with any number of actor mailboxes feeding the dispatcher queue of capacity 9 (C04_dispatcher_one_at_a_time, C04_blocked_schedule_is_noop); the monitor applied to implementation traces accepts every trace of the model (C04_monitor_sound). "
+              "and arbitrary concurrent producers at most one task is running, run by the consumer, never an index panic, never parked on stale cases while work is pending (C04_one_at_a_time, C04_no_missed_wakeup, C04_handler_runs_to_completion, C04_producers_never_run_handlers); the same with any number of actor mailboxes feeding the dispatcher queue of capacity 9 (C04_dispatcher_one_at_a_time, C04_blocked_schedule_is_noop); teardown: stopping the run service and everything produced before or after it starts no piece, a Post on the closed queue changes nothing, and once the loop has ended nothing runs under any schedule (C04_only_the_consumer_starts_pieces, C04_post_after_stop_dropped, C04_nothing_runs_after_the_loop_ended); the monitor applied to implementation traces accepts every trace of the model (C04_monitor_sound). "
               "C04_funnel_total (every work kind has a channel whose items all reach the consumer) is true BY CONSTRUCTION of the funnel table. "
               "NOT provable in any Gallina model and therefore MEASURED on the running code each run: that the real entry points (request/notify handler, response and timeout callback, timer callback, "
               "posted closure, local/global event, session add/remove/message) really go through those channels and really execute on the service's one loop goroutine, one at a time - "
